@@ -56,6 +56,20 @@ Theorem C05_scope_accept_funcs_named : forall B raw eof p,
 Proof. exact accept_funcs_named. Qed.
 Print Assumptions C05_scope_accept_funcs_named.
 
+(* the function table of an accepted parse (the table the static rules above refer to): the
+   builtins, preceded by one entry per `func` keyword of the token list, latest first, each named
+   by the identifier that follows the keyword (func_names), niladic iff its parsed parameter list
+   is empty, with arity = the number of parsed parameters, or variadic for a single `p:T...`.
+   (Not stated: that the names are distinct and differ from builtins - the pre-pass reports
+   redeclaration and overriding; that the parameter list is what a reader of the source would
+   call the parameters - it is what parseFuncDefSignature's loop consumed.) *)
+Theorem C05_scope_fn_table_shape : forall B raw eof p,
+  parse B raw eof = Accept p ->
+  exists sigs, fn_table B raw = sigs ++ builtin_table B /\
+               map fst sigs = rev (func_names (legal_toks raw)) /\ Forall (fun nf => fi_wf (snd nf)) sigs.
+Proof. exact fn_table_shape. Qed.
+Print Assumptions C05_scope_fn_table_shape.
+
 (* the simulation itself, one statement: on an error-free run from a state with a non-empty
    scope chain and an empty read log, the scope checker maps the abstraction of the chain
    before the statement to the abstraction after it, the function table does not change and
@@ -143,7 +157,9 @@ Definition ex_ok : list (list (toktype * string)) :=
 Example C05_scope_ex_accepted :
   exists p, run ex_ok = Accept p /\ funcs_named B1 (prog ex_ok) = true /\
             scope_prog (tabs_of B1 (fn_table B1 (prog ex_ok))) p = true /\ List.length p = 4 /\
-            map fst (fn_table B1 (prog ex_ok)) = [s_ "f"; s_ "print"; s_ "len"].
+            map fst (fn_table B1 (prog ex_ok)) = [s_ "f"; s_ "print"; s_ "len"] /\
+            func_names (legal_toks (prog ex_ok)) = [s_ "f"] /\
+            option_map fi_arity (lookup_fn (s_ "f") (fn_table B1 (prog ex_ok))) = Some (Some 1).
 Proof. vm_compute. eexists. repeat split. Qed.
 
 (* funcs_named is false on `func` without a name; the pre-pass rejects that input *)
